@@ -83,6 +83,7 @@ const (
 	OpRLe
 	OpRConst
 	OpToReal // signed BV -> Real (via bv2int), used for int->float64 conversion in real mode
+	OpRealToBV // Real -> signed BV (truncation toward zero), float64->int conversion in real mode
 )
 
 var opNames = map[Op]string{
@@ -762,6 +763,15 @@ func (tt *TermTable) RNeg(a *Term) *Term {
 	return tt.mk(&Term{Op: OpRNeg, S: RealSort, Args: []*Term{a}})
 }
 
+func (tt *TermTable) RealToBV(a *Term, w int) *Term {
+	if a.Op == OpRConst {
+		f := new(big.Float).SetRat(a.R)
+		i, _ := f.Int(nil) // truncates toward zero
+		return tt.Const(BV(w), i.Uint64())
+	}
+	return tt.mk(&Term{Op: OpRealToBV, S: BV(w), Args: []*Term{a}})
+}
+
 func (tt *TermTable) ToReal(a *Term) *Term {
 	if a.Op == OpConst {
 		return tt.RConst(new(big.Rat).SetInt64(sext(a.C, a.S.W)))
@@ -836,6 +846,9 @@ func body(t *Term) string {
 	case OpHexNib:
 		x := as[0]
 		return fmt.Sprintf("(ite (bvult %s #xa) (bvadd ((_ zero_extend 4) %s) #x30) (bvadd ((_ zero_extend 4) %s) #x57))", x, x, x)
+	case OpRealToBV:
+		x := as[0]
+		return fmt.Sprintf("((_ int2bv %d) (ite (>= %s 0.0) (to_int %s) (- (to_int (- %s)))))", t.S.W, x, x, x)
 	case OpToReal:
 		// signed interpretation of the bit-vector
 		w := t.Args[0].S.W
